@@ -194,7 +194,7 @@ func (p *Prog) CallGraph(kind string) *callgraph.Graph {
 	if p.cgCHA == nil {
 		p.cgCHA = cha.CallGraph(prog)
 	}
-	if kind == "cha" {
+	if kind == "cha" || os.Getenv("HL_CG") == "cha" {
 		return p.cgCHA
 	}
 	if p.cgVTA == nil {
